@@ -1,3 +1,4 @@
+import OrbitModel.Model.Store
 import OrbitModel.Proofs.History
 import OrbitModel.Proofs.GenEqWrite
 import OrbitModel.Proofs.ViewRace
@@ -99,5 +100,20 @@ theorem unlocked_copy_left_a_stale_view :
 /-- both indices of the Go text of this run copy the log under their lock -/
 theorem view_update_order_tied_to_go_text : Gen.kvIndexOrder = Order.updateIndex ∧
     Gen.docIndexOrder = Order.updateIndex := gen_updateIndex_order
+
+/-- **the view is the replay of what the log lists — whatever the log listed before, whatever the view
+was** (after the `fix:` commit, finding F45: the index is rebuilt into a fresh map). No history
+hypothesis is left: `index_tracks_replay` and `index_step` needed "the listing only grows", which a
+`Load` with a limit on a live store breaks (it trims the log). -/
+theorem view_is_the_replay_of_the_listing (idx : KV) (L : Log) (hops : KvOps (values L)) :
+    KV.equiv (updateIndex .kv idx L) (lwwReplay (values L)) :=
+  kv_inv_step [] [] (values L) hops (KV.equiv_refl _) (fun _ h => by cases h)
+
+/-- Refutation witness for the index as it was (the map patched, never cleared): a key of an entry the
+log no longer lists stayed in the view; now it goes (replayed on the real store by `Load(n)` on a
+live store: corpus/C06/f45) -/
+theorem stale_key_survived_a_trim_before_the_fix :
+    KV.get (updateIndex0 .kv [("stale", "x")] (Log.empty 1)) "stale" = some "x" ∧
+    KV.get (updateIndex .kv [("stale", "x")] (Log.empty 1)) "stale" = none := by decide
 
 end Orbit.C06
